@@ -20,7 +20,7 @@ Lemma u_step_table s b : s < 9 -> b < 256 -> WsRecv.u_step s b = dfa_step dfa_py
 Proof. intros Hs Hb. rewrite u_step_is_rfc_step. symmetry. now apply transitions_py. Qed.
 
 Definition loop_agree (r : N * option N) : bool * N :=
-  match r with (_, Some _) => (false, 1) | (s', None) => (true, s') end.
+  match r with (_, Some _) => (false, 1) | (s', None) => (negb (s' =? 1), s') end.
 
 (* u_loop (receive model) and py_loop (utf8validator.py over the generated table) walk together *)
 Lemma u_loop_py_loop bs : forall s i, s < 9 -> Utf8.bytes_ok bs ->
@@ -52,19 +52,19 @@ Proof.
   - eapply IH; exact E.
 Qed.
 
-(* one validate() call from any state other than REJECT: verdict, boundary flag and the state kept for the next
-   fragment are those of the real (table-driven) validator *)
-Lemma u_validate_is_py_validate s idx bs : s < 9 -> s <> 1 -> Utf8.bytes_ok bs ->
+(* one validate() call from ANY state (REJECT included: an empty chunk after a rejection is reported invalid again,
+   upstream a0b6310f): verdict, boundary flag and the state kept for the next fragment are those of the real
+   (table-driven) validator *)
+Lemma u_validate_is_py_validate s idx bs : s < 9 -> Utf8.bytes_ok bs ->
   WsRecv.u_validate s bs =
     (let '(pv, (rv, re, _, _)) := py_validate dfa_py {| py_state := s; py_index := idx |} bs in
      (rv, re, py_state pv)).
 Proof.
-  intros Hs Hn Hb. unfold WsRecv.u_validate, py_validate. cbn [py_state py_index].
+  intros Hs Hb. unfold WsRecv.u_validate, py_validate. cbn [py_state py_index].
   rewrite (u_loop_py_loop bs s 0 Hs Hb).
   destruct (py_loop dfa_py s 0 bs) as [s' [i|]] eqn:E; cbn [loop_agree py_state].
   - rewrite (py_loop_some_state _ _ _ _ _ E). reflexivity.
-  - destruct (py_loop_none_state _ _ _ _ Hs Hn Hb E) as [Hs1 _].
-    apply N.eqb_neq in Hs1. rewrite Hs1. reflexivity.
+  - destruct (N.eqb_spec s' 1) as [->|H1]; [reflexivity|]. cbn [negb andb]. reflexivity.
 Qed.
 
 (* a whole text message validated fragment by fragment by the receive model is accepted exactly when it is
